@@ -182,3 +182,29 @@ def di_imports_under_emitted_names(schema_ref):
         return False
     name = schema_ref.split("/")[-1]
     return call_arg("writer.write_line", 0, 0) == "        from ." + NameSanitizer.sanitize_module_name(name) + " import " + NameSanitizer.sanitize_class_name(name)
+
+
+# ---- wrapper classes of map / free-form object schemas: the schema's description reaches the class template only through escape_docstring_text (C15) ----
+DGW = "pyopenapi_gen.visit.model.dataclass_generator:DataclassGenerator._generate_json_wrapper_class"
+c = contract(DGW, props=["C15"], types={"class_name": "str"}, shape={"schema.description": "any", "schema.additional_properties": "any"}, abstract_unsupported=True,
+             functional_opaque=["escape_docstring_text"],
+             independent_of={"sources": ["schema.description"], "allowed": ["escape_docstring_text", "add_import", "resolve_schema_type", "isinstance"],
+                             "declassify": ["escape_docstring_text"], "result": True})
+
+
+@c.ensures(note="vacuity guard: the function has a normal exit")
+def gjw_returns(self, class_name, schema, context, result):
+    return True
+
+
+# ---- APIClient accessor properties: the tag text reaches the emitted lines only through escape_docstring_text (C15) ------------------------------------
+CV = "pyopenapi_gen.visit.client_visitor:ClientVisitor._generate_client_implementation"
+c = contract(CV + "#accessor-property", props=["C15"], region_for_target="(tag, class_name, module_name)", region_occurrence=2, region_body_only=True,
+             types={"tag": "str", "class_name": "str", "module_name": "str"}, abstract_unsupported=True, functional_opaque=["escape_docstring_text"],
+             nothrow_calls=["escape_docstring_text", "write_line", "indent", "dedent"],
+             independent_of={"sources": ["tag"], "allowed": ["escape_docstring_text"], "declassify": ["escape_docstring_text"]})
+
+
+@c.ensures(only_exit="end", note="vacuity guard: the iteration has a normal exit")
+def ap_reaches_end():
+    return True
